@@ -9,6 +9,8 @@ package main
 //   - server/server.go (*Server).AcceptConn, server/handshake.go (*Server).handshake, server/login.go
 //     (*MojangLoginHandler).AcceptLogin, server/ping.go (*Server).acceptListPing,
 //     server/configuration.go (*Configurations).AcceptConfig;
+//   - bot/event.go (*Events).AddListener, (*Events).AddGeneric, sortPacketHandlers and bot/ingame.go
+//     (*Client).HandleGame, handleBundlePackets, handlePacket (the dispatcher);
 //   - data/packetid/packetid.go: every constant of the iota blocks with its value.
 //
 // Only go/parser + go/ast are used.  Every function body is translated statement by statement, in
@@ -18,7 +20,7 @@ package main
 //     GWrite id args   conn.WritePacket(pk.Marshal(id, args...))
 //     GEcho            conn.WritePacket(p)
 //     GSetThreshold a  conn.SetThreshold(a)
-// control flow keeps its structure (GIf, GSwitch, GLoop, GLoopN, GFor, GReturn, GBranch) and every other
+// control flow keeps its structure (GIf, GSwitch, GLoop, GLoopN, GFor, GRange, GLabel, GReturn, GBranch) and every other
 // statement is carried as its rendered text (GOther), so that ANY edit of these bodies changes the
 // generated term.  A statement or expression node outside the shapes handled below makes the
 // translator fail (non-zero exit of gotrans), which the check reports as a broken correspondence.
@@ -80,14 +82,14 @@ func (c *gctx) gx(e ast.Expr) (string, error) {
 		a, err := c.gx(x.X)
 		return a + "." + x.Sel.Name, err
 	case *ast.CallExpr:
-		if x.Ellipsis != token.NoPos {
-			return "", c.errf(e, "call with ellipsis")
-		}
 		f, err := c.gx(x.Fun)
 		if err != nil {
 			return "", err
 		}
 		as, err := c.gxs(x.Args)
+		if x.Ellipsis != token.NoPos {
+			as += "..."
+		}
 		return f + "(" + as + ")", err
 	case *ast.StarExpr:
 		a, err := c.gx(x.X)
@@ -140,6 +142,39 @@ func (c *gctx) gx(e ast.Expr) (string, error) {
 		}
 		b, err := c.gx(x.Type)
 		return a + ".(" + b + ")", err
+	case *ast.FuncLit:
+		// only `func(params) result { return expr }` (the comparator handed to sort)
+		if len(x.Body.List) != 1 {
+			return "", c.errf(e, "function literal with a body other than one return statement")
+		}
+		rs, ok := x.Body.List[0].(*ast.ReturnStmt)
+		if !ok {
+			return "", c.errf(e, "function literal with a body other than one return statement")
+		}
+		var ps []string
+		for _, f := range x.Type.Params.List {
+			t, err := c.gx(f.Type)
+			if err != nil {
+				return "", err
+			}
+			var ns []string
+			for _, n := range f.Names {
+				ns = append(ns, n.Name)
+			}
+			ps = append(ps, strings.Join(ns, ",")+" "+t)
+		}
+		res := ""
+		if x.Type.Results != nil {
+			for _, f := range x.Type.Results.List {
+				t, err := c.gx(f.Type)
+				if err != nil {
+					return "", err
+				}
+				res += " " + t
+			}
+		}
+		r, err := c.gxs(rs.Results)
+		return "func(" + strings.Join(ps, ",") + ")" + res + " { return " + r + " }", err
 	case *ast.ArrayType:
 		if x.Len != nil {
 			return "", c.errf(e, "array type with length")
@@ -467,6 +502,35 @@ func (c *gctx) stmt(s ast.Stmt, ind string) ([]string, error) {
 			return []string{fmt.Sprintf("GFor %s %s", gq(hdr), gblock(body, ind))}, nil
 		}
 		return nil, c.errf(s, "unknown for-loop header")
+	case *ast.RangeStmt:
+		k, err := c.gx(x.Key)
+		if err != nil {
+			return nil, err
+		}
+		v, err := c.gx(x.Value)
+		if err != nil {
+			return nil, err
+		}
+		over, err := c.gx(x.X)
+		if err != nil {
+			return nil, err
+		}
+		hdr := k
+		if v != "" {
+			hdr += "," + v
+		}
+		hdr += " " + x.Tok.String() + " range " + over
+		body, err := c.stmts(x.Body.List, ind+"  ")
+		if err != nil {
+			return nil, err
+		}
+		return []string{fmt.Sprintf("GRange %s %s", gq(hdr), gblock(body, ind))}, nil
+	case *ast.LabeledStmt:
+		inner, err := c.stmt(x.Stmt, ind)
+		if err != nil {
+			return nil, err
+		}
+		return append([]string{"GLabel " + gq(x.Label.Name)}, inner...), nil
 	case *ast.ReturnStmt:
 		t, err := c.gxs(x.Results)
 		return []string{"GReturn " + gq(t)}, err
@@ -505,6 +569,13 @@ var gateFuncs = []gateFunc{
 	{"server/login.go", "MojangLoginHandler", "AcceptLogin", "server_accept_login", "conn", nil},
 	{"server/ping.go", "Server", "acceptListPing", "server_accept_list_ping", "conn", nil},
 	{"server/configuration.go", "Configurations", "AcceptConfig", "server_accept_config", "conn", nil},
+	// the dispatcher (the connection is the client's queue-backed c.Conn; event.go has none)
+	{"bot/event.go", "Events", "AddListener", "bot_add_listener", "", nil},
+	{"bot/event.go", "Events", "AddGeneric", "bot_add_generic", "", nil},
+	{"bot/event.go", "", "sortPacketHandlers", "bot_sort_packet_handlers", "", nil},
+	{"bot/ingame.go", "Client", "HandleGame", "bot_handle_game", "c.Conn", nil},
+	{"bot/ingame.go", "Client", "handleBundlePackets", "bot_handle_bundle_packets", "c.Conn", nil},
+	{"bot/ingame.go", "Client", "handlePacket", "bot_handle_packet", "c.Conn", nil},
 }
 
 func genPacketIDs(repo string, out *bytes.Buffer) error {
@@ -583,7 +654,7 @@ func genGate(repo string) (string, error) {
 			hasConn = hasConn || p == gf.conn
 		}
 		c := &gctx{fset: fset, conn: gf.conn, vars: map[string]string{}, expand: gf.expand, seen: map[string]bool{}}
-		if !hasConn {
+		if !hasConn && gf.conn == "conn" {
 			// (*Client).join dials the connection itself: `conn, err := options.MCDialer.DialMCContext(...)`
 			if gf.name != "join" {
 				return "", fmt.Errorf("%s: %s has no parameter %q", path, gf.name, gf.conn)
